@@ -118,3 +118,34 @@ package types
 //@   loop 1 invariant forall i int :: #rangeindex < i && i < 20 ==> operAddr[i] == key[9 + i]
 //@   loop 1 invariant forall r int :: 0 <= r && r < old(alloc) ==> Ha_Int[r] == old(Ha_Int[r])
 //@   loop 1 decreases 20 - #rangeindex
+
+// ---------------------------------------------------------------- expected keepers (value mode)
+// The pos keeper reaches the bank through the AuthKeeper interface; each method carries the
+// contract of the x/auth keeper method that implements it (verified there under C02).
+
+//@ iface func (ak AuthKeeper) GetModuleAddress(name string) (r sdk.Address)
+//@   same_as x/auth/keeper.Keeper.GetModuleAddress
+//@ iface func (ak AuthKeeper) GetModuleAccount(ctx sdk.Ctx, moduleName string) (r authexported.ModuleAccountI)
+//@   same_as x/auth/keeper.Keeper.GetModuleAccount
+//@ iface func (ak AuthKeeper) GetSupply(ctx sdk.Ctx) (r authexported.SupplyI)
+//@   same_as x/auth/keeper.Keeper.GetSupply
+//@ iface func (ak AuthKeeper) SendCoinsFromModuleToModule(ctx sdk.Ctx, senderModule, recipientModule string, amt sdk.Coins) (err sdk.Error)
+//@   same_as x/auth/keeper.Keeper.SendCoinsFromModuleToModule
+//@ iface func (ak AuthKeeper) SendCoinsFromModuleToAccount(ctx sdk.Ctx, senderModule string, recipientAddr sdk.Address, amt sdk.Coins) (err sdk.Error)
+//@   same_as x/auth/keeper.Keeper.SendCoinsFromModuleToAccount
+//@ iface func (ak AuthKeeper) SendCoinsFromAccountToModule(ctx sdk.Ctx, senderAddr sdk.Address, recipientModule string, amt sdk.Coins) (err sdk.Error)
+//@   same_as x/auth/keeper.Keeper.SendCoinsFromAccountToModule
+//@ iface func (ak AuthKeeper) MintCoins(ctx sdk.Ctx, moduleName string, amt sdk.Coins) (err sdk.Error)
+//@   same_as x/auth/keeper.Keeper.MintCoins
+//@ iface func (ak AuthKeeper) BurnCoins(ctx sdk.Ctx, name string, amt sdk.Coins) (err sdk.Error)
+//@   same_as x/auth/keeper.Keeper.BurnCoins
+//@ iface func (ak AuthKeeper) GetCoins(ctx sdk.Ctx, addr sdk.Address) (r sdk.Coins)
+//@   same_as x/auth/keeper.Keeper.GetCoins
+//@ iface func (ak AuthKeeper) SendCoins(ctx sdk.Ctx, fromAddr sdk.Address, toAddr sdk.Address, amt sdk.Coins) (err sdk.Error)
+//@   same_as x/auth/keeper.Keeper.SendCoins
+//@ iface func (ak AuthKeeper) HasCoins(ctx sdk.Ctx, addr sdk.Address, amt sdk.Coins) (r bool)
+//@   mode value
+//@   uses bankinv
+//@   requires valid(amt)
+//@   modifies acct.id, acct.next, acct.coins, acct.addr
+//@   ensures r == (forall d Str :: amt(auth.bal[addr], d) >= amt(amt, d))
